@@ -43,8 +43,8 @@ def gen(rng, tier, quarantine=()):
             name, cls = rng.choice(F["inst"])
             if "no-equal-receivers" in quarantine and fam in ("E.meth", "N.meth"):
                 name, cls = F["inst"][-1] if fam == "E.meth" else F["inst"][0]
-            lv.update({"recv": name, "recv_cls": cls, "recv_param": F["param"],
-                       "recv_path": f"{name}.{F['attr']}"})
+            path = f"{name}.{F['attr']}" if rng.random() < 0.7 else f"box.{name}.{F['attr']}"
+            lv.update({"recv": name, "recv_cls": cls, "recv_param": F["param"], "recv_path": path})
         elif r < 0.85:
             lv["recv_path"] = rng.choice(F["cls_paths"])
         else:
